@@ -14,6 +14,7 @@ mod driver;
 mod e2;
 mod e3;
 mod e4;
+mod e6;
 mod handlers;
 mod model;
 mod rng;
@@ -74,6 +75,7 @@ fn dispatch(cfg: RunCfg) -> RunResult {
                     "e2" => e2::run(cfg).await,
                     "e3" => e3::run(cfg).await,
                     "e4" => e4::run(cfg).await,
+                    "e6" => e6::run(cfg).await,
                     other => RunResult::harness_error(&cfg, format!("unknown engine {}", other)),
                 }
             })
